@@ -293,7 +293,53 @@ def c12_jobs(tier, seed):
     return jobs
 
 
+TSAN_TS = 'mid_sse_ts_seq_tsan'
+TSAN_CACHED = 'mid_sse_cache_seq_tsan'
+
+
+def c15_jobs(tier, seed):
+    q = tier == 'quick'
+    jobs = [TraceJob(TSAN_TS, 'threads', shards=1, args=['--extra', 'nthreads=%d' % k], label='threads%d@%s' % (k, TSAN_TS), threads=k, tsan=True, timeout=3000)
+            for k in ((2, 4, 8) if q else (2, 3, 4, 8, 16))]
+    jobs.append(TraceJob('small_nosse_ts_seq_tsan', 'threads', shards=1, args=['--extra', 'nthreads=4'], label='threads4@small_nosse_ts_seq_tsan', threads=4, tsan=True, timeout=3000))
+    # witness: the same harness on the default (cached) build must show races, otherwise the observation is vacuous
+    jobs.append(TraceJob(TSAN_CACHED, 'threads', shards=1, args=['--extra', 'nthreads=4'], label='threads4-witness@' + TSAN_CACHED, threads=4, tsan=True, expect_races=True, timeout=3000))
+    return jobs
+
+
+def c15_mc(tier):
+    return [mcjob('MC_Threads', 'MC_Threads_ts', workers=4), mcjob('MC_Threads', 'MC_Threads_cached', workers=4, witness=True)]
+
+
+OMPCFG = 'mid_sse_cache_omp'
+OMPSEQ = 'mid_sse_cache_seq'
+
+
+def c16_jobs(tier, seed):
+    q = tier == 'quick'
+    n = 36 if q else 240
+    sh = 2 if q else 4
+    jobs = [TraceJob(OMPSEQ, 'omp', shards=sh, args=['--cases', n], label='omp@mid#seq', timeout=3400)]
+    for t in ((1, 2, 3, 4, 8) if q else (1, 2, 3, 4, 5, 8, 16)):
+        jobs.append(TraceJob(OMPCFG, 'omp', shards=sh, args=['--cases', n], label='omp@mid#t%d' % t, timeout=3400,
+                             env={'OMP_NUM_THREADS': str(t), 'OMP_NESTED': 'TRUE', 'OMP_MAX_ACTIVE_LEVELS': '3', 'OMP_DYNAMIC': 'FALSE'}))
+    return jobs
+
+
+def c16_mc(tier):
+    ts = ['t1', 't2', 't3'] + ([] if tier == 'quick' else ['t4'])
+    return [mcjob('MC_OMP', 'MC_OMP_' + t, workers=16, timeout=3000, xmx='16g') for t in ts] + \
+           [mcjob('MC_OMP', 'MC_OMP_wit_quadrant', workers=16, witness=True), mcjob('MC_OMP', 'MC_OMP_wit_shared_tmp', workers=16, witness=True)]
+
+
 PROPS = {
+    'C16': dict(level='model_checking', reasons=ALG_REASONS, jobs=c16_jobs, mc=c16_mc, post_drive=c10_post_drive,
+                assumptions=['the interleaving model (OMP.tla) covers all schedules of 4 sections / a static-chunk row loop for 1..4 threads at small bounds',
+                             'on the real code schedules are whatever libgomp and the OS produce for OMP_NUM_THREADS in {1,2,3,4,5,8,16}; each configuration is compared byte-wise with the sequential build '
+                             '(libgomp is not TSan-instrumented, so no race detector is used here: this is the weakest binding, DESIGN.md section 6)']),
+    'C15': dict(level='model_checking', reasons=ALG_REASONS | {'padding'}, jobs=c15_jobs, mc=c15_mc, skip_reject_cfgs=[TSAN_CACHED],
+                assumptions=['schedules on the real code are those the OS produces; ThreadSanitizer (happens-before) reports a race independently of lucky timing, but only for code that ran',
+                             'a report must repeat on one re-run before it is reported', 'the model classifies calls by the globals they touch; the binding is the TSan-observed execution of every routine by >= 2 threads']),
     'C10': dict(level='model_checking', reasons={'padding', 'result', 'crash', 'unexpected_die', 'unknown_op'}, jobs=c10_jobs, mc=lambda tier: [], post_drive=c10_post_drive,
                 assumptions=GEN_ASSUME + ['environments: fresh process; allocator wrapper poisoning every block on hand-out (0xA5) and on release (0x5A); '
                                           'warm-up pass of the same case followed by filling every cached block with ones; destinations pre-filled with random data']),
@@ -413,8 +459,30 @@ def run_property(prop, tier, seed):
     t = time.time()
     pairs = [(j, s) for j in jobs for s in range(j.shards)]
     with ThreadPoolExecutor(max_workers=vlib.NCPU) as ex:
-        traces = list(ex.map(lambda js: vlib.run_driver(js[0], rundir, seed, tier, js[1]), pairs))
+        raw = list(ex.map(lambda js: vlib.run_driver(js[0], rundir, seed, tier, js[1]), pairs))
+    # a threaded driver run yields one trace per thread
+    pairs2, traces = [], []
+    for (job, shard), r in zip(pairs, raw):
+        if job.expect_races:
+            continue    # witness build: only its race reports matter, its (possibly corrupted) traces are not validated
+        for x in (r if isinstance(r, list) else [r]):
+            pairs2.append((job, shard))
+            traces.append(x)
+    pairs = pairs2
     log('[drive] %d trace(s) recorded in %.0fs' % (len(traces), time.time() - t))
+    for job in jobs:
+        if job.tsan and job.expect_races:
+            if not any(n for _, n in job.races):
+                raise Infra('vacuity: ThreadSanitizer saw no race in the witness build %s (the harness cannot see races)' % job.cfg)
+            log('[tsan] witness %s: %d report(s) in the cached build, as required' % (job.label, sum(n for _, n in job.races)))
+        elif job.tsan:
+            for path, n in job.races:
+                kf = vlib.match_known(known, prop, {'op': 'tsan', 'cfg': job.cfg, 'family': job.family, 'reasons': ['race']})
+                if kf:
+                    res['known'].append(kf['id'] + ': ' + kf['what'])
+                else:
+                    res['violations'].append({'replay': path, 'detail': '%d ThreadSanitizer report(s) (repeated on re-run) in %s' % (n, job.label)})
+            log('[tsan] %s: %d repeated report(s)' % (job.label, sum(n for _, n in job.races)))
     if 'post_drive' in P:
         for v in P['post_drive'](prop, pairs, traces, rundir, seed, tier):
             kf = vlib.match_known(known, prop, v['sig'])
@@ -470,6 +538,8 @@ def run_property(prop, tier, seed):
                             samples.append(s)
                     perop[ev['op']] = perop.get(ev['op'], 0) + 1
         bad = [(ln, op, reasons) for (ln, op, reasons) in r['fails']] + [(c[0], 'crash', ['crash']) for c in r['crashes']]
+        if job.cfg in P.get('skip_reject_cfgs', []):
+            bad = []
         keep = False
         for ln, op, reasons in bad:
             if lines is None:
